@@ -550,6 +550,56 @@ func runC04(r *mc.Run) {
 		}
 		eval(id, lc.qi, ti, true)
 	})
+	// lists that are NOT sorted in some column: the first matching level, then a run of levels that one column (PCESVN,
+	// an SGX component, a TDX component) puts out of reach, then matching levels of the other verdict — any search that
+	// relies on a column being monotone lands behind the first match
+	type humpCase struct{ qi, n, pos, run, col, st int }
+	var humps []humpCase
+	for _, qi := range []int{0, 2} {
+		for _, n := range []int{8, 9, 12, 16, 33} {
+			for _, pos := range []int{0, 1, 2} {
+				for _, run := range []int{1, n/2 - 1, n - 4} {
+					for _, col := range []int{4, 2, 3, 7, 8} {
+						for _, st := range []int{0, 1} {
+							if qi == 0 && col >= 7 && st == 1 {
+								continue
+							}
+							humps = append(humps, humpCase{qi, n, pos, run, col, st})
+						}
+					}
+				}
+			}
+		}
+	}
+	doneH := r.Parallel(len(humps), func(i int) {
+		hc := humps[i]
+		id := fmt.Sprintf("unsorted-levels/q%d/n=%d,first-match@%d:%s,then-%d-out-of-reach-by-pattern-%d", hc.qi, hc.n, hc.pos, statuses[hc.st], hc.run, hc.col)
+		if !r.Want(id) {
+			return
+		}
+		full := [4]int{0, 0, 0, 0}
+		ti, _ := build(&mc.Ctx{}, hc.qi, &full)
+		q := quotes[hc.qi]
+		other := "UpToDate"
+		if statuses[hc.st] == "UpToDate" {
+			other = "OutOfDate"
+		}
+		ti.TcbLevels = nil
+		for k := 0; k < hc.n; k++ {
+			switch {
+			case k < hc.pos:
+				ti.TcbLevels = append(ti.TcbLevels, c04Level(q.w.Plat, q.tee, hc.col, "UpToDate"))
+			case k == hc.pos:
+				ti.TcbLevels = append(ti.TcbLevels, c04Level(q.w.Plat, q.tee, 0, statuses[hc.st]))
+			case k <= hc.pos+hc.run:
+				ti.TcbLevels = append(ti.TcbLevels, c04Level(q.w.Plat, q.tee, hc.col, other))
+			default:
+				ti.TcbLevels = append(ti.TcbLevels, c04Level(q.w.Plat, q.tee, 1, other))
+			}
+		}
+		eval(id, hc.qi, ti, true)
+	})
+	r.SectionDone(mc.Section{Name: "unsorted-level-lists", Evaluations: int64(doneH), Exhaustive: doneH == len(humps)})
 	r.SectionDone(mc.Section{Name: "long-level-lists", Evaluations: int64(doneL), Exhaustive: doneL == len(longs),
 		Note: "platform level lists (and module identity level lists) of 8..100 levels, first match at selected positions x every status"})
 }
